@@ -365,7 +365,14 @@ func init() {
 			if viaSet {
 				res.obs("cases_with_inputs_through_ValueSet.Args", 1)
 			}
-			outs, _ := runScenarioX(c, s, r, reps, &res, func(in *Inst) { in.ZeroInput1 = zero + 1; in.ViaSet = viaSet }, func(in *Inst, o *Outcome) {
+			mixIn := r.Intn(6) == 0
+			outs, _ := runScenarioX(c, s, r, reps, &res, func(in *Inst) {
+				in.ZeroInput1 = zero + 1
+				in.ViaSet = viaSet
+				if mixIn {
+					in.MixCase = r
+				}
+			}, func(in *Inst, o *Outcome) {
 				count(o.Events)
 				if o.Class == ClsPanic || r.Intn(2) == 0 {
 					return
